@@ -169,7 +169,7 @@ def match_edges(w, r):
 
 
 DIR_ATTRS = set(['i18n:msg', 'i18n:choose', 'i18n:singular', 'i18n:plural', 'i18n:domain', 'i18n:ctxt', 'i18n:comment',
-                 'py:if', 'py:for', 'py:strip'])
+                 'py:if', 'py:for', 'py:strip', 'py:with'])
 DIR_ELEMS = set(['i18n:msg', 'i18n:choose', 'i18n:singular', 'i18n:plural', 'i18n:domain', 'i18n:ctxt', 'py:if'])
 
 
@@ -452,9 +452,13 @@ def in_hypotheses(case):
         # the template parser never delivers an empty text node among the children of an element and the
         # generator writes none; a shrinking step that empties one would make "first child is text" true
         # of an element-first message (attribute values may be empty: they are not looked at here)
+        prev = None
         for n in nodes or []:
-            if n[0] == 't' and n[1] == '':
+            if n[0] == 't' and (n[1] == '' or prev == 't'):
+                # ... nor two adjacent text nodes (the source text joins them, the reference
+                # construction would translate them one by one)
                 return True
+            prev = n[0]
             if n[0] == 'e' and has_empty_text(n[4]):
                 return True
             if n[0] == 'd' and has_empty_text(n[3]):
@@ -634,6 +638,90 @@ def in_hypotheses(case):
         return all(node_ok(n, False) for n in case['tmpl'])
     except Exception:  # noqa
         return False
+
+
+_MSG_DIRS = ('i18n:msg', 'i18n:choose', 'i18n:singular', 'i18n:plural')
+
+
+def project(case):
+    """a case inside the hypotheses of the oracle made from an arbitrary well-formed case (a
+    template of the `Rare` generator, a template on which model and code disagreed): plain
+    elements and i18n:domain / i18n:ctxt elements keep the children that can be kept, message /
+    choose nodes are kept whole or dropped, attributes that break a hypothesis (edge white space in
+    an included attribute, xml:lang where it is not allowed) are repaired or dropped.  Uses
+    `in_hypotheses` as the only judge, so whatever it returns is a case the oracle may be asked
+    about; returns None when nothing is left.  The directive lists of the surviving elements are
+    untouched: the combination of directives on one element is what the search is after."""
+    base = dict(case)
+
+    def inside(nodes):
+        c = dict(base)
+        c['tmpl'] = nodes
+        return in_hypotheses(c)
+
+    incl = set(case['cfg']['include_attrs'])
+
+    def fix_attrs(n):
+        out = []
+        for name, parts in n[2]:
+            if name == 'xml:lang':
+                continue
+            if name in incl and all(q[0] == 't' for q in parts):
+                parts = [['t', ''.join(q[1] for q in parts).strip()]]
+            out.append([name, parts])
+        return [n[0], n[1], out, n[3], n[4]]
+
+    def has_msg(n):
+        if n[0] == 'e':
+            return any(d[0] in _MSG_DIRS for d in n[3]) or any(has_msg(k) for k in n[4])
+        if n[0] == 'd':
+            return n[1] in _MSG_DIRS or any(has_msg(k) for k in n[3])
+        return False
+
+    def join(nodes):
+        out = []
+        for k in nodes:
+            if k is None:
+                continue
+            if k[0] == 't' and out and out[-1][0] == 't':
+                out[-1] = ['t', out[-1][1] + k[1]]      # what the source text says
+            else:
+                out.append(k)
+        return out
+
+    def prune(n):
+        if n[0] == 't' and n[1] == '':
+            return None
+        if n[0] == 'e' and not any(d[0] in _MSG_DIRS for d in n[3]):
+            kids = join(prune(k) for k in n[4])
+            for attrs_fixed in (False, True):
+                for ks in (kids, join(k for k in kids if not has_msg(k)), []):
+                    m = [n[0], n[1], n[2], n[3], ks]
+                    if attrs_fixed:
+                        m = fix_attrs(m)
+                    if inside([m]):
+                        return m
+            return None
+        if n[0] == 'd' and n[1] in ('i18n:domain', 'i18n:ctxt'):
+            kids = join(prune(k) for k in n[3])
+            m = [n[0], n[1], n[2], kids]
+            return m if inside([m]) else None
+        if inside([n]):
+            return n
+        if n[0] == 'e':
+            m = fix_attrs(n)
+            if inside([m]):
+                return m
+        return None
+    try:
+        nodes = join(prune(n) for n in case['tmpl'])
+        if not nodes or not inside(nodes):
+            return None
+        c = dict(base)
+        c['tmpl'] = nodes
+        return c
+    except Exception:  # noqa
+        return None
 
 
 def oracle_case(case):
@@ -1558,6 +1646,20 @@ def shard(arg):
         except Exception as e:  # noqa
             res.count('rare:unparsable:' + type(e).__name__)
             continue
+        # the part of the template that lies inside the hypotheses of the oracle (all of it, when
+        # it does) is put before the oracle as well: identity + look-ups
+        for checks in (['identity', 'lookups'], ['identity']):
+            pc = project(dict(c, cat='id', catseed=0, checks=checks))
+            if pc is not None:
+                break
+        if pc is None or not valid_case(pc):
+            res.count('rare:oracle:nothing-inside-hypotheses')
+        else:
+            res.count('rare:oracle:' + ('whole' if pc['tmpl'] == c['tmpl'] else 'part') + ':' + '+'.join(pc['checks']))
+            res.evaluations += 1
+            f = oracle_case(pc)
+            if f:
+                res.failures.append(f)
         try:
             for t in corr_lines(c, rrng):
                 if t[0] == 'branches':
@@ -1610,12 +1712,22 @@ def search(ctx, res, broken):
         if key in seen:
             continue
         seen.add(key)
-        for cat, checks in (('id', ['identity', 'lookups']), ('scramble', ['placeholders', 'excluded']),
+        # every clause, whatever the case was generated for (a `Rare` template carries no catalogue and
+        # no list of clauses; a template generated for the identity clause alone may hold letters in
+        # fragment positions): the case as it is when it lies inside the hypotheses of the oracle,
+        # else (and also) the part of it that does - `project`
+        for cat, checks in (('id', ['identity', 'lookups']), ('id', ['identity']), ('scramble', ['placeholders', 'excluded']),
                             ('perm', ['placeholders']), ('drop', ['placeholders'])):
             c2 = dict(c)
             c2['cat'] = cat
-            c2['checks'] = checks if c.get('checks') and 'lookups' in c['checks'] or cat != 'id' else ['identity']
-            f = replay(ctx, c2)
+            c2['checks'] = checks
+            c2.setdefault('catseed', 0)
+            f = None
+            for c3 in (c2, project(c2)):
+                if c3 is not None:
+                    f = replay(ctx, c3)
+                    if f:
+                        break
             if f:
                 found.append(f)
                 break
